@@ -44,6 +44,23 @@ def run(report, db, tier):
     P = Proto(db)
     S = shared.summariser(db, cg)
     construction(report, db, cg, M, P)
+    # "the latest allowed version": latest by the publication order the
+    # derived tables give -- which must be the order of the records
+    from ..common import borrow
+    from . import c08
+    from ..fold import Folder
+
+    def tables(sub):
+        F = Folder(db)
+        recs = c08.records_of(F, db)
+        c08.compare_tables(sub, sub.rule('R08.2', ''), F.tables(),
+                           c08.reference_projection(recs), None, db,
+                           'after import')
+    borrow(report, 'R09.1t', "the version announced and the default are the "
+           "latest by publication order: the derived version tables are the "
+           "order-preserving duplicate-free projection of the records "
+           "(C08's table rule)",
+           lambda rid, c: c.startswith('table:'), tables)
     shortcut(report, db, S, M, P)
     status_evaluation(report, db, S, M, P)
     mismatch(report, db, cg, M, P)
